@@ -18,8 +18,8 @@ import (
 // nopRecorder drops events (the fake recorder blocks when its buffer fills).
 type nopRecorder struct{}
 
-func (nopRecorder) Event(runtime.Object, string, string, string)                    {}
-func (nopRecorder) Eventf(runtime.Object, string, string, string, ...interface{})   {}
+func (nopRecorder) Event(runtime.Object, string, string, string)                  {}
+func (nopRecorder) Eventf(runtime.Object, string, string, string, ...interface{}) {}
 func (nopRecorder) AnnotatedEventf(runtime.Object, map[string]string, string, string, string, ...interface{}) {
 }
 
